@@ -31,12 +31,12 @@ type Ctx struct {
 	AllFns  map[*ssa.Function]bool
 	KevoFns []*ssa.Function // functions (incl. closures) defined in the kevo module, sorted by name
 
-	NumPkgs int
+	NumPkgs  int
 	lockInfo *LockInfo
 	ctorOnly map[*ssa.Function]bool
 	fieldAcc map[string][]FieldAccess
 	blocking map[*ssa.Function][]string
-	NumFns  int
+	NumFns   int
 }
 
 // Load type-checks /repo ./... and builds SSA + VTA call graph.
